@@ -69,6 +69,7 @@ pub fn read_directories(
         root_dir_offset_length,
         leaf_dir_offset,
         &filter_range,
+        0,
     )?;
 
     Ok(tiles)
@@ -127,11 +128,17 @@ pub async fn read_directories_async(
         root_dir_offset_length,
         leaf_dir_offset,
         &filter_range,
+        0,
     )
     .await?;
 
     Ok(tiles)
 }
+
+/// Maximum number of directory levels (the root directory and the leaf directories
+/// nested below it) that are followed. A chain of leaf pointers longer than this,
+/// e.g. a cycle, is invalid data.
+const MAX_DIRECTORY_DEPTH: u8 = 4;
 
 /// Get (inclusive) end of range bounds.
 ///
@@ -157,7 +164,15 @@ async fn fn_name(
     (dir_offset, dir_length): (u64, u64),
     leaf_dir_offset: u64,
     filter_range: &FilterRangeTraits,
+    depth: u8,
 ) -> Result<()> {
+    if depth >= MAX_DIRECTORY_DEPTH {
+        return Err(std::io::Error::new(
+            std::io::ErrorKind::InvalidData,
+            "Leaf directories are nested too deeply.",
+        ));
+    }
+
     seek_start([reader], [dir_offset])?;
     let directory = read_directory([reader], [dir_length], [compression])?;
     let range_end = range_end_inc(filter_range).unwrap_or(u64::MAX);
@@ -169,13 +184,21 @@ async fn fn_name(
                 continue;
             }
 
+            let leaf_offset = leaf_dir_offset.checked_add(entry.offset).ok_or_else(|| {
+                std::io::Error::new(
+                    std::io::ErrorKind::InvalidData,
+                    "Offset of a leaf directory overflows.",
+                )
+            })?;
+
             add_await([fn_name(
                 reader,
                 tiles,
                 compression,
-                (leaf_dir_offset + entry.offset, u64::from(entry.length)),
+                (leaf_offset, u64::from(entry.length)),
                 leaf_dir_offset,
                 filter_range,
+                depth + 1,
             )])?;
             continue;
         }
